@@ -437,8 +437,8 @@ class VAMMessage(CooperativeAwarenessMessage):
             Position confidence ellipse value.
         """
         position_confidence_ellipse = {
-            "semiMajorAxisLength": int(epx * 100),
-            "semiMinorAxisLength": int(epy * 100),
+            "semiMajorAxisLength": min(int(epx * 100), 4094),
+            "semiMinorAxisLength": min(int(epy * 100), 4094),
             "semiMajorAxisOrientation": 0,
         }
 
